@@ -225,7 +225,7 @@ Section XSafe.
 
   Lemma base_rules : forall c, In c (map fst all_checks) -> violates c (xbase d) = false.
   Proof.
-    destruct (xknown_false d Hk) as (Hkb & _). destruct (known_false _ Hkb) as (_ & _ & _ & K9 & _).
+    destruct (xknown_false d Hk) as (Hkb & _). destruct (known_false _ Hkb) as (_ & K9 & _).
     assert (H1302 : Rules.viol_1302 (xbase d) = false) by (apply (Hv 1302); cbn; tauto).
     intros c Hc. unfold all_checks, jobs_checks, vehicles_checks, routing_checks in Hc. cbn [map app In fst] in Hc.
     repeat (destruct Hc as [<-|Hc]; [match goal with |- violates ?c _ = false =>
@@ -241,16 +241,13 @@ Section XSafe.
   Qed.
 End XSafe.
 (* ---------- the reader steps of a validated document outside the known classes ---------- *)
-Lemma xpre_ok d : x14_speed_not_positive d = false -> xpre_panics d = false.
-Proof.
-  unfold x14_speed_not_positive, xpre_panics, pre_validation_panics, has_indices. change is_index with loc_is_index.
-  destruct (x_matrices d); [reflexivity|]. now rewrite is_nil_nonempty, negb_involutive.
-Qed.
+Lemma xpre_ok d : xpre_panics d = false.
+Proof. unfold xpre_panics. now destruct (x_matrices d). Qed.
 Lemma reader_steps_spec d : xknown d = false -> (forall c, In c (map fst xall_checks) -> xviolates c d = false) ->
   first_failure (reader_steps d) = if xtransport_fails (x_profiles d) (seen_matrices d) then SErr 2 else SOk.
 Proof.
-  intros Hk Hv. destruct (xknown_false d Hk) as (Hkb & K7x & X11 & X14 & X16 & G1 & G2).
-  destruct (known_false _ Hkb) as (_ & K7 & _ & _).
+  intros Hk Hv. destruct (xknown_false d Hk) as (Hkb & K7x & X11 & X16 & G1 & G2).
+  destruct (known_false _ Hkb) as (K7 & _).
   assert (Hb := base_rules d Hk Hv).
   unfold reader_steps. rewrite (fleet_safe _ Hkb Hb), (reserved_safe _ Hb). cbn [b2p first_failure].
   destruct (xtransport_fails (x_profiles d) (seen_matrices d)) eqn:Et; [reflexivity|].
@@ -286,8 +283,8 @@ Lemma xread_cases d : xknown d = false ->
             | VOk => if xtransport_fails (x_profiles d) (seen_matrices d) then RErr [2] else ROk
             end.
 Proof.
-  intros Hk. destruct (xknown_false d Hk) as (Hkb & _ & _ & X14 & _). unfold xread, xvalidate_pre.
-  rewrite (xpre_ok d X14), (xvalidate_spec d Hkb).
+  intros Hk. destruct (xknown_false d Hk) as (Hkb & _). unfold xread, xvalidate_pre.
+  rewrite (xpre_ok d), (xvalidate_spec d Hkb).
   destruct (xspec_result_cases d) as [[E Hv]|(cs & E & _)]; rewrite E; [|reflexivity].
   rewrite (reader_steps_spec d Hk Hv). now destruct (xtransport_fails _ _).
 Qed.
@@ -334,8 +331,8 @@ Lemma xreader_safe_l d : xknown d = false -> (forall c, In c gen_doc_validation 
   /\ locks_panic d = false /\ goal_step d = SOk /\ cluster_step d = SOk
   /\ (xtransport_fails (x_profiles d) (seen_matrices d) = false -> jobs_index_panics d = false).
 Proof.
-  intros Hk Hv0. assert (Hv := proj2 (no_rule_iff d) Hv0). destruct (xknown_false d Hk) as (Hkb & K7x & X11 & X14 & X16 & G1 & G2).
-  destruct (known_false _ Hkb) as (_ & K7 & _ & _). assert (Hb := base_rules d Hk Hv).
+  intros Hk Hv0. assert (Hv := proj2 (no_rule_iff d) Hv0). destruct (xknown_false d Hk) as (Hkb & K7x & X11 & X16 & G1 & G2).
+  destruct (known_false _ Hkb) as (K7 & _). assert (Hb := base_rules d Hk Hv).
   repeat split.
   - exact (fleet_safe _ Hkb Hb).
   - exact (reserved_safe _ Hb).
@@ -401,14 +398,15 @@ Qed.
 Lemma nat_list_eqb_refl l : nat_list_eqb l l = true.
 Proof. induction l as [|x l IH]; [reflexivity|]. cbn. now rewrite Nat.eqb_refl. Qed.
 
-Lemma approx_transport_ok d : x_matrices d = None ->
+Lemma approx_transport_ok d : x_matrices d = None -> existsb (fun s => s <=? 0) (x_speeds d) = false ->
   xviolates 1500 d = false -> xviolates 1501 d = false -> xviolates 1503 d = false ->
   xtransport_fails (x_profiles d) (seen_matrices d) = false.
 Proof.
-  intros Em H1500 H1501 H1503. change (xviolates 1500 d) with (xviol_1500 d) in H1500. change (xviolates 1501 d) with (xviol_1501 d) in H1501.
+  intros Em Hsp H1500 H1501 H1503. change (xviolates 1500 d) with (xviol_1500 d) in H1500. change (xviolates 1501 d) with (xviol_1501 d) in H1501.
   change (xviolates 1503 d) with (xviol_1503 d) in H1503. unfold xviol_1500 in H1500. unfold xviol_1501 in H1501. unfold xviol_1503 in H1503.
   apply negb_false_iff in H1500, H1501. rewrite Em, andb_true_r in H1503.
-  unfold seen_matrices, has_indices. change is_index with loc_is_index. rewrite Em, H1503. unfold approx_matrices. cbv zeta.
+  unfold seen_matrices, has_indices. change is_index with loc_is_index. rewrite Em, H1503. unfold approx_matrices, approx_skipped. rewrite Hsp.
+  rewrite is_nil_nonempty, H1501. cbn [negb orb]. cbv zeta.
   set (n := List.length (ci_reverse (coord_index (x_locs d)))). set (R := repeat 0 (n * n)%nat).
   set (mk := fun p : string => mkXMatrix (mkMatrix (Some p) R R None) None).
   generalize dependent (x_profiles d). intros ps H1500 H1501.
@@ -430,17 +428,18 @@ Proof.
 Qed.
 
 (* documents read without routing matrices: the matrix step never fails once validation passed, the clauses need no E0002 part *)
-Lemma xaccept_iff_nomatrix_l d : xknown d = false -> x_matrices d = None ->
+Lemma xaccept_iff_nomatrix_l d : xknown d = false -> x_matrices d = None -> existsb (fun s => s <=? 0) (x_speeds d) = false ->
   (xread d = ROk <-> forall c, In c gen_doc_validation -> xviolates c d = false).
 Proof.
-  intros Hk Em. rewrite (xaccept_iff_l d Hk). split; [tauto|]. intros H. split; [exact H|].
-  apply (approx_transport_ok d Em); apply H; vm_compute; tauto.
+  intros Hk Em Hsp. rewrite (xaccept_iff_l d Hk). split; [tauto|]. intros H. split; [exact H|].
+  apply (approx_transport_ok d Em Hsp); apply H; vm_compute; tauto.
 Qed.
-Lemma xcodes_exact_nomatrix_l d cs : xknown d = false -> x_matrices d = None -> xread d = RErr cs ->
+Lemma xcodes_exact_nomatrix_l d cs : xknown d = false -> x_matrices d = None -> existsb (fun s => s <=? 0) (x_speeds d) = false ->
+  xread d = RErr cs ->
   cs <> [] /\ NoDup cs /\ forall c, In c cs <-> In c gen_doc_validation /\ xviolates c d = true.
 Proof.
-  intros Hk Em Hr. destruct (xcodes_exact_l d cs Hk Hr) as [(_ & Hv & Ht)|H]; [|exact H]. exfalso.
-  rewrite (approx_transport_ok d Em) in Ht; [discriminate| | |]; apply Hv; vm_compute; tauto.
+  intros Hk Em Hsp Hr. destruct (xcodes_exact_l d cs Hk Hr) as [(_ & Hv & Ht)|H]; [|exact H]. exfalso.
+  rewrite (approx_transport_ok d Em Hsp) in Ht; [discriminate| | |]; apply Hv; vm_compute; tauto.
 Qed.
 
 (* what a successful matrix step guarantees (the documented conditions of E0002 are necessary) *)
@@ -507,6 +506,7 @@ Proof.
   unfold is_base_document. intros H. repeat (apply andb_prop in H; destruct H as [H ?]).
   destruct (x_relations d) eqn:Er; [discriminate|]. destruct (x_objectives d) eqn:Eo; [discriminate|].
   destruct (x_clustering d) eqn:Ec; [discriminate|]. destruct (x_matrices d) eqn:Em; [discriminate|].
+  match goal with Hs : negb (existsb (fun s => s <=? 0) _) = true |- _ => apply negb_true_iff in Hs; rename Hs into Hsp end.
   match goal with Hi : negb (existsb is_index _) = true |- _ => apply negb_true_iff in Hi; rename Hi into Hidx end.
   match goal with Hl : Bool.eqb _ _ = true |- _ => apply Bool.eqb_prop in Hl; rename Hl into Hloc end.
   assert (R : forall c, In c [1200; 1201; 1202; 1203; 1204; 1205; 1206; 1207] -> xviolates c d = false).
@@ -521,7 +521,7 @@ Proof.
   { change (xviolates 1503 d) with (xviol_1503 d). unfold xviol_1503. change loc_is_index with is_index. now rewrite Hidx. }
   assert (H1504 : xviolates 1504 d = violates 1504 (xbase d)).
   { change (xviolates 1504 d) with (xviol_1504 d). change (violates 1504 (xbase d)) with (Rules.viol_1504 (xbase d)).
-    unfold xviol_1504, Rules.viol_1504. rewrite Em. change loc_is_index with is_index. rewrite Hidx, Hloc, has_location_any. reflexivity. }
+    unfold xviol_1504, Rules.viol_1504. rewrite Em. change loc_is_index with is_index. rewrite Hidx, Hloc, has_location_any, Hsp. cbn [negb]. now rewrite andb_true_r. }
   assert (H1505 : xviolates 1505 d = violates 1505 (xbase d)).
   { change (xviolates 1505 d) with (xviol_1505 d). change (violates 1505 (xbase d)) with (Rules.viol_1505 (xbase d)).
     unfold xviol_1505. rewrite Ec. apply orb_false_r. }
@@ -553,7 +553,8 @@ Proof.
   destruct (xspec_result_cases d) as [[_ Hxv]|(cs & E' & _)]; [|congruence].
   unfold is_base_document in Hp. repeat (apply andb_prop in Hp; destruct Hp as [Hp ?]).
   destruct (x_matrices d) eqn:Em; [discriminate|].
-  rewrite (approx_transport_ok d Em); [reflexivity| | |]; apply Hxv; cbn; tauto.
+  match goal with Hs : negb (existsb (fun s => s <=? 0) _) = true |- _ => apply negb_true_iff in Hs; rename Hs into Hsp end.
+  rewrite (approx_transport_ok d Em Hsp); [reflexivity| | |]; apply Hxv; cbn; tauto.
 Qed.
 
 (* ---------- witnesses on the extended document (evaluated, not assumed) ---------- *)
@@ -602,8 +603,10 @@ Lemma xnonvacuous_err_l : xknown xw_rejected = false /\ xread xw_rejected = RErr
 Proof. split; vm_compute; reflexivity. Qed.
 Lemma x11_witness : x11_special_without_job xw_x11 = true /\ xbreaks_no_rule xw_x11 /\ xvalidate xw_x11 = VOk /\ xread xw_x11 = RPanic.
 Proof. split; [|split; [apply xbreaks_no_rule_dec|split]]; vm_compute; reflexivity. Qed.
-Lemma x14_witness : x14_speed_not_positive xw_x14 = true /\ xbreaks_no_rule xw_x14 /\ xvalidate xw_x14 = VOk /\ xread xw_x14 = RPanic.
-Proof. split; [|split; [apply xbreaks_no_rule_dec|split]]; vm_compute; reflexivity. Qed.
+(* X14 was repaired in /repo: a speed that is not positive skips the approximation, the matrix step answers E0002 *)
+Lemma x14_fixed_l : x14_speed_not_positive xw_x14 = true /\ xknown xw_x14 = false /\ xbreaks_no_rule xw_x14 /\ xvalidate_pre xw_x14 = VOk
+  /\ xtransport_fails (x_profiles xw_x14) (seen_matrices xw_x14) = true /\ xread xw_x14 = RErr [2].
+Proof. split; [|split; [|split; [apply xbreaks_no_rule_dec|split; [|split]]]]; vm_compute; reflexivity. Qed.
 Lemma x16_witness : x16_recharge_times xw_x16 = true /\ xbreaks_no_rule xw_x16 /\ xvalidate xw_x16 = VOk /\ xread xw_x16 = RPanic.
 Proof. split; [|split; [apply xbreaks_no_rule_dec|split]]; vm_compute; reflexivity. Qed.
 Lemma g1_witness : g1_goal_unbuildable xw_g1 = true /\ xbreaks_no_rule xw_g1
